@@ -238,6 +238,29 @@ def model_line(case: Dict[str, Any]) -> str:
             + (" " + reps if reps else ""))
 
 
+def project(out: str, what: str) -> str:
+    """the part of an operation's observation a property is about: "frames" = the bytes written; "class" = those plus what kind of
+    thing came back (which exception class / which response class, for a generic response also whether it counts as successful) -
+    but not the decoded CONTENT of a state reply, which is C08's and C10's business and nobody else's"""
+    frames, outcome = out.split(" out=", 1) if " out=" in out else (out, "")
+    if what == "frames":
+        return frames
+    head = outcome.split(" ", 1)[0]
+    if head == "raise":
+        return frames + " out=" + " ".join(outcome.split(" ")[:2])
+    if head == "base":
+        return frames + " out=" + outcome
+    return frames + " out=" + head
+
+
+def same(what: str):
+    """a comparison of model and implementation outputs restricted to that part (histories: per operation)"""
+    def cmp(m: str, i: str) -> bool:
+        ms, is_ = m.replace(" || ", " ;; ").split(" ;; "), i.replace(" || ", " ;; ").split(" ;; ")
+        return len(ms) == len(is_) and all(project(a, what) == project(b, what) for a, b in zip(ms, is_))
+    return cmp
+
+
 def frames_of(out: str) -> List[bytes]:
     f = out.split(" ", 1)[0][len("frames="):]
     return [] if f == "-" else [bytes.fromhex(x) for x in f.split(",")]
